@@ -223,15 +223,20 @@ func secRun(in []byte) (interface{}, error) {
 	conf.Options.SourceAddressList = []string{"10.1.1.1:6379"}
 	metric.CreateMetric(&stubRunner{ds: []*dbSync.DbSyncer{ds}})
 	// the status documents in every form they are served or printed in, with and without the `extra` option
+	savedSrcType, savedTgtType := conf.Options.SourceType, conf.Options.TargetType
 	for _, extra := range []bool{false, true} {
-		conf.Options.ExtraInfo = extra
-		st, _ := json.Marshal(ds.GetExtraInfo())
-		tr.Emit(tracer.Ev{"e": "emit", "sink": "syncer-status", "fields": fieldsIn(string(st) + fmt.Sprintf("%v %+v", ds.GetExtraInfo(), ds.GetExtraInfo())), "bytes": len(st), "extra": extra})
-		var rest []byte
-		runAbortable(func() { rest, _ = json.Marshal(metric.NewMetricRest()) })
-		tr.Emit(tracer.Ev{"e": "emit", "sink": "rest-metric", "fields": fieldsIn(string(rest)), "bytes": len(rest), "extra": extra})
+		for _, styp := range []string{"standalone", "cluster", "sentinel", "proxy"} {
+			conf.Options.ExtraInfo = extra
+			conf.Options.SourceType, conf.Options.TargetType = styp, styp
+			st, _ := json.Marshal(ds.GetExtraInfo())
+			tr.Emit(tracer.Ev{"e": "emit", "sink": "syncer-status", "fields": fieldsIn(string(st) + fmt.Sprintf("%v %+v", ds.GetExtraInfo(), ds.GetExtraInfo())), "bytes": len(st), "extra": extra, "type": styp})
+			var rest []byte
+			runAbortable(func() { rest, _ = json.Marshal(metric.NewMetricRest()) })
+			tr.Emit(tracer.Ev{"e": "emit", "sink": "rest-metric", "fields": fieldsIn(string(rest)), "bytes": len(rest), "extra": extra, "type": styp})
+		}
 	}
 	conf.Options.ExtraInfo = false
+	conf.Options.SourceType, conf.Options.TargetType = savedSrcType, savedTgtType
 	// ---- every log line that carried a sentinel (collected as the lines were written, whatever the volume), and the totals
 	sink.mu.Lock()
 	leaks := append([]string(nil), sink.leaks...)
